@@ -78,6 +78,8 @@ CONFIGS = (
     {},
     {"connection_lost_back_off_threshold": 2, "connection_lost_back_off_sleep_sec": 9, "max_delay": 4},
     {"connection_lost_back_off_threshold": 10, "connection_lost_back_off_sleep_sec": 3, "max_delay": 60},
+    # (values a configuration file may well carry: fractions of a second, a cap below the breaker's sleep)
+    {"connection_lost_back_off_threshold": 2.5, "connection_lost_back_off_sleep_sec": 1.5, "max_delay": 3},
 )
 
 
